@@ -16,6 +16,7 @@ import SF.GenEq.Tactic
 set_option linter.unusedSimpArgs false
 set_option linter.unusedSectionVars false
 set_option linter.unusedVariables false
+set_option maxHeartbeats {heartbeats}
 /-! Translator tie for `{view}` ({src}): the view generated from the Rust text = the model's `{model_doc}`,
 for every child view: same answers and same panics on every input.  (Table-driven: tools/mk_geneq.py.) -/
 namespace SF.GenEq.{view}
@@ -35,6 +36,7 @@ def emit(sp):
     hyps = sp.get("hyps", "")          # e.g. "(hN : 0 < N)"
     hnames = " ".join(h.split(":")[0].strip("( ") for h in hyps.split(")") if ":" in h)
     cfg = sp.get("cfg", [])            # [(field, param)]
+    derived = sp.get("derived", [])    # [(field, expression in {params})]  immutable fields computed by the constructor
     def model(subst):
         m = sp["model"]
         for f, p in cfg:
@@ -43,7 +45,7 @@ def emit(sp):
     model_s = model(lambda f, p: "s.%s" % f)
     model_p = model(lambda f, p: p)
     unfold = sp.get("unfold", "")
-    o = HEAD.format(view=view, imports="\nimport ".join(sp.get("imports", ["SF.Model.Window"])), src=sp["src"], model_doc=model_p)
+    o = HEAD.format(view=view, imports="\nimport ".join(sp.get("imports", ["SF.Model.Window"])), src=sp["src"], model_doc=model_p, heartbeats=sp.get("heartbeats", 400000))
     o += "\n" + sp.get("pre", "")
     o += "def s0 %s %s : %s := %s\n" % (chb, params, sty, sp["s0"])
     s0app = ("(s0 %s %s)" % (cha, pnames)) if (cha or pnames) else "(s0 : %s)" % sty
@@ -55,17 +57,22 @@ def emit(sp):
         o += "theorem %s %s %s : %s := by\n  rfl\n\n" % (extra_name, chb, params, extra_ctor)
     mst = sp["mstate"]
     o += "@[simp] def abs %s (s : %s) : %s := %s\n\n" % (chb, sty, mst, sp["abs"])
-    shyps = sp.get("state_hyps", "")     # hypotheses on s needed by the lemmas, e.g. "(h : 0 < s.window_len)"
+    def dexpr(e, subst):
+        for f, p in cfg:
+            e = e.replace("{%s}" % p, subst(f, p))
+        return e
+    shyps = sp.get("state_hyps", "") + " ".join("(hd%d : s.%s = %s)" % (i, f, dexpr(e, lambda f_, p_: "s.%s" % f_)) for i, (f, e) in enumerate(derived))
     shn = " ".join(h.split(":")[0].strip("( ") for h in shyps.split(")") if ":" in h)
     o += "theorem upd_eq %s (s : %s) (x : α) %s :\n    (update %s s x).map (abs %s) = (%s).upd (abs %s s) x := by\n  %s\n" % (
         chb, sty, shyps, cha, cha, model_s, cha, sp.get("upd_proof", "simp only [update, wrap, mapV, binop, %s, abs]; gen_tie" % unfold))
-    cfgprop = " ∧ ".join("s'.%s = s.%s" % (f, f) for f, p in cfg) or "True"
+    cfgprop = " ∧ ".join("s'.%s = s.%s" % (f, f) for f, p in cfg + derived) or "True"
     o += "theorem upd_cfg %s (s s' : %s) (x : α) : update %s s x = .ok s' → %s := by\n  %s\n" % (
-        chb, sty, cha, cfgprop, sp.get("cfg_proof", "simp only [update]; gen_tie"))
+        chb, sty, cha, cfgprop, sp.get("cfg_proof", "simp only [update, %s]; gen_tie" % unfold))
     o += "theorem last_eq %s (s : %s) %s : last %s s = (%s).last (abs %s s) := by\n  %s\n\n" % (
         chb, sty, shyps, cha, model_s, cha, sp.get("last_proof", "simp only [last, wrap, mapV, binop, %s, abs]; gen_tie" % unfold))
-    cfgP = " ∧ ".join("s.%s = %s" % (f, p) for f, p in cfg) or "True"
-    n = len(cfg)
+    cfgP = " ∧ ".join(["s.%s = %s" % (f, p) for f, p in cfg] + ["s.%s = %s" % (f, dexpr(e, lambda f_, p_: p_)) for f, e in derived]) or "True"
+    n = len(cfg) + len(derived)
+    nplain = len(cfg)
     def destr(h):
         if n == 0: return ""
         if n == 1: return "obtain rfl := %s; " % h if False else ""
@@ -74,16 +81,23 @@ def emit(sp):
     o += "  Cfg s := %s\n  abs := abs %s\n" % (cfgP, cha)
     o += "  init_cfg := by simp [mkView, s0]\n  init_abs := by %s\n" % sp.get("init_proof", "rfl")
     # rewrite the parameters by the state's fields, then apply the lemmas
+    n = len(cfg) + len(derived)
     pat = "⟨" + ", ".join("h%d" % i for i in range(n)) + "⟩" if n > 1 else ("h0" if n == 1 else "_")
     rw = "".join("subst h%d; " % i for i in range(n))
-    sh = sp.get("state_hyps_from", "")   # how to discharge state_hyps inside sim, e.g. "(by simpa [h0] using hN)"
+    if sp.get("state_hyps_from") is None:
+        sp = dict(sp, state_hyps_from=" ".join("h%d" % i for i in range(len(cfg), len(cfg) + len(derived))))
+    sh = sp.get("state_hyps_from", "")   # how to discharge state_hyps inside sim
     o += "  upd s x hs := by\n    have := upd_eq %s s x %s\n    %s\n    simpa [%s] using this\n" % (cha, sh.replace("h0", "hs") if n == 1 else sh, pat if n != 1 else "h0", ", ".join("h%d" % i for i in range(n)) or "mkView") \
         if False else ""
-    ob = ("obtain %s := hs" % pat) if n > 1 else ("have h0 := hs" if n == 1 else "skip")
-    rw = ("rw [" + ", ".join("← h%d" % i for i in range(n)) + "]; ") if n else ""
-    o += "  upd := fun (s : %s) x hs => by\n    %s\n    %sexact upd_eq %s s x %s\n" % (sty, ob, rw, cha, sh)
+    ob = ("obtain %s := hs" % pat) if n > 1 else (("have h0 : %s := hs" % cfgP) if n == 1 else "skip")
+    plain_hs = ", ".join("h%d" % i for i in range(nplain))
+    tryrw = "; ".join("(try rw [h%d])" % i for i in range(nplain))
+    conv = " ".join("(by %s; exact h%d)" % (tryrw, i) for i in range(nplain, n)) if nplain else " ".join("h%d" % i for i in range(nplain, n))
+    sh0 = sp.get("state_hyps_from0", "")     # hypotheses of the lemmas that are parameters of `sim` (e.g. htot hrefl)
+    fin = ("; ".join("(try rw [h%d] at this)" % i for i in range(nplain)) + "; exact this") if nplain else "exact this"
+    o += "  upd := fun (s : %s) x hs => by\n    %s\n    have := upd_eq %s s x %s %s\n    %s\n" % (sty, ob, cha, sh0, conv, fin)
     o += "  upd_cfg := fun (s : %s) x s' hs h => by\n    %s\n    have := upd_cfg %s s s' x h\n    simp_all\n" % (sty, ob, cha)
-    o += "  last := fun (s : %s) hs => by\n    %s\n    %sexact last_eq %s s %s\n\n" % (sty, ob, rw, cha, sh)
+    o += "  last := fun (s : %s) hs => by\n    %s\n    have := last_eq %s s %s %s\n    %s\n\n" % (sty, ob, cha, sh0, conv, fin)
     o += "/-- the Rust text of `%s`, as translated, and the model agree on every input: same answers, same panics -/\n" % view
     o += "theorem tie %s %s %s (xs : List α) :\n    (mkView %s (update %s) (last %s)).trace %s xs = (%s).trace (%s).init xs :=\n  (%s).trace_eq xs\n" % (
         chb, params, hyps, s0app, cha, cha, s0app, model_p, model_p, ("sim %s %s %s" % (cha, pnames, hnames)) if (cha or pnames or hnames) else "sim (α := α)")
@@ -133,6 +147,62 @@ SPECS = [
       s0="{ val := c }", model="constV {c}", unfold="constV", mstate="Unit", abs="()"),
  dict(view="Tanh", src="src/pure_functions/tanh.rs", imports=["SF.Model.Pure"],
       s0="{ view := A.init }", model="mapV Transc.tanh A", unfold="mapV", mstate="A.σ", abs="s.view"),
+
+ dict(view="Min", src="src/sliding_windows/min.rs", params="(N : Nat)", cfg=[("window_len", "N")],
+      ctor_hyps="(hN : 0 < N)", new_proof="simp [new, s0, hN, bind, Except.bind, pure, Except.pure]",
+      s0="{ view := A.init, opt_min := none, q_vals := [], window_len := N }", model="wrap A (minCoreU {N})", unfold="minCoreU, minByPC, listMin",
+      mstate="A.σ × ExtState α", abs="(s.view, { opt := s.opt_min, q := s.q_vals })",
+      post="/-- the constructor's `assert!(window_len > 0)` and the model's -/\ntheorem new_zero (A : View α) : new A 0 = .error .assertFailed ∧ (minCore (α := α) 0).toOption.isNone := by\n  constructor <;> rfl\n"),
+ dict(view="Max", src="src/sliding_windows/max.rs", params="(N : Nat)", cfg=[("window_len", "N")],
+      ctor_hyps="(hN : 0 < N)", new_proof="simp [new, s0, hN, bind, Except.bind, pure, Except.pure]",
+      s0="{ view := A.init, opt_max := none, q_vals := [], window_len := N }", model="wrap A (maxCoreU {N})", unfold="maxCoreU, maxByPC, listMax",
+      mstate="A.σ × ExtState α", abs="(s.view, { opt := s.opt_max, q := s.q_vals })",
+      post="/-- the constructor's `assert!(window_len > 0)` and the model's -/\ntheorem new_zero (A : View α) : new A 0 = .error .assertFailed ∧ (maxCore (α := α) 0).toOption.isNone := by\n  constructor <;> rfl\n"),
+ dict(view="SuperSmoother", src="src/sliding_windows/super_smoother.rs", imports=["SF.Model.Ehlers"], params="(N : Nat)", cfg=[("window_len", "N")],
+      derived=[("c1", "(ssCoef {N}).c1"), ("c2", "(ssCoef {N}).c2"), ("c3", "(ssCoef {N}).c3")],
+      s0="{ view := A.init, window_len := N, i := 0, c1 := (ssCoef N).c1, c2 := (ssCoef N).c2, c3 := (ssCoef N).c3, filt := nat 0, filt_1 := nat 0, filt_2 := nat 0, last_val := nat 0 }",
+      model="wrap A (ssCore {N})", unfold="ssCore, ssStep, ssOut, ssInit", mstate="A.σ × SsState α",
+      abs="(s.view, { i := s.i, filt := s.filt, filt1 := s.filt_1, filt2 := s.filt_2, lastVal := s.last_val })"),
+ dict(view="WelfordOnline", src="src/sliding_windows/welford_online.rs", params="(N : Nat)", cfg=[("window_len", "N")],
+      ctor_hyps="(hN : 0 < N)", new_proof="simp [new, s0, hN, bind, Except.bind, pure, Except.pure]",
+      s0="{ view := A.init, window_len := N, q_vals := [], mean := nat 0, m2 := nat 0, count := 0 }",
+      model="wrap A (welfordCoreU {N})",
+      unfold="welfordCoreU, welfordStep, welfordOut, welfordInit, WelfordState.add, WelfordState.remove, WelfordState.variance, update_stats_add, update_stats_remove, variance",
+      hyps="(htot : ∀ a b : α, ¬ a ≤ b → b ≤ a) (hrefl : ∀ a : α, a ≤ a)", state_hyps="(htot : ∀ a b : α, ¬ a ≤ b → b ≤ a) (hrefl : ∀ a : α, a ≤ a)", state_hyps_from0="htot hrefl",
+      mstate="A.σ × WelfordState α", abs="(s.view, { q := s.q_vals, mean := s.mean, m2 := s.m2, count := s.count })"),
+ dict(view="Rsi", src="src/sliding_windows/rsi.rs", params="(N : Nat)", cfg=[("window_len", "N")],
+      s0="{ view := A.init, window_len := N, avg_gain := nat 0, avg_loss := nat 0, old_ref := nat 0, last_val := nat 0, q_vals := [], out := none }",
+      model="wrap A (rsiCore {N})", unfold="rsiCore", heartbeats=8000000, mstate="A.σ × RsiState α",
+      abs="(s.view, { avgGain := s.avg_gain, avgLoss := s.avg_loss, oldRef := s.old_ref, lastVal := s.last_val, q := s.q_vals, out := s.out })"),
+ dict(view="MyRSI", src="src/sliding_windows/my_rsi.rs", params="(N : Nat)", cfg=[("window_len", "N")],
+      s0="{ view := A.init, window_len := N, cu := nat 0, cd := nat 0, out := nat 0, q_vals := [], last_val := nat 0, oldest_val := nat 0 }",
+      model="wrap A (myRsiCore {N})", unfold="myRsiCore", heartbeats=8000000, mstate="A.σ × MyRsiState α",
+      abs="(s.view, { cu := s.cu, cd := s.cd, out := s.out, q := s.q_vals, lastVal := s.last_val, oldestVal := s.oldest_val })"),
+ dict(view="BinaryEntropy", src="src/sliding_windows/binary_entropy.rs", params="(N : Nat)", cfg=[("window_len", "N")],
+      s0="{ view := A.init, window_len := N, q_vals := [], p := 0 }",
+      model="wrap A (bentCore {N})", unfold="bentCore", mstate="A.σ × BentState α", abs="(s.view, { q := s.q_vals, p := s.p })"),
+ dict(view="Vst", src="src/sliding_windows/variance_stabilizing_transformation.rs", params="(N : Nat)", cfg=[("welford_online.window_len", "N")],
+      ctor_hyps="(hN : 0 < N)", new_proof="simp [new, SF.Gen.WelfordOnline.new, s0, hN, bind, Except.bind, pure, Except.pure, echoV]",
+      s0="{ view := A.init, last := nat 0, welford_online := { view := none, window_len := N, q_vals := [], mean := nat 0, m2 := nat 0, count := 0 } }",
+      model="wrap A (vstCoreU {N})", unfold="vstCoreU, welfordCoreU, welfordStep, welfordOut, welfordInit, WelfordState.add, WelfordState.remove, WelfordState.variance, SF.Gen.WelfordOnline.update, SF.Gen.WelfordOnline.last, SF.Gen.WelfordOnline.update_stats_add, SF.Gen.WelfordOnline.update_stats_remove, SF.Gen.WelfordOnline.variance, echoV", heartbeats=4000000,
+      hyps="(htot : ∀ a b : α, ¬ a ≤ b → b ≤ a) (hrefl : ∀ a : α, a ≤ a)", state_hyps="(htot : ∀ a b : α, ¬ a ≤ b → b ≤ a) (hrefl : ∀ a : α, a ≤ a)", state_hyps_from0="htot hrefl",
+      mstate="A.σ × VstState α",
+      abs="(s.view, { last := s.last, wo := { q := s.welford_online.q_vals, mean := s.welford_online.mean, m2 := s.welford_online.m2, count := s.welford_online.count } })"),
+ dict(view="Vsct", src="src/sliding_windows/vsct.rs", params="(N : Nat)", cfg=[("welford_online.window_len", "N")],
+      ctor_hyps="(hN : 0 < N)", new_proof="simp [new, SF.Gen.WelfordOnline.new, s0, hN, bind, Except.bind, pure, Except.pure, echoV]",
+      s0="{ view := A.init, last := nat 0, welford_online := { view := none, window_len := N, q_vals := [], mean := nat 0, m2 := nat 0, count := 0 } }",
+      model="wrap A (vsctCoreU {N})", unfold="vsctCoreU, welfordCoreU, welfordStep, welfordOut, welfordInit, WelfordState.add, WelfordState.remove, WelfordState.variance, SF.Gen.WelfordOnline.update, SF.Gen.WelfordOnline.last, SF.Gen.WelfordOnline.update_stats_add, SF.Gen.WelfordOnline.update_stats_remove, SF.Gen.WelfordOnline.variance, echoV", heartbeats=4000000,
+      hyps="(htot : ∀ a b : α, ¬ a ≤ b → b ≤ a) (hrefl : ∀ a : α, a ≤ a)", state_hyps="(htot : ∀ a b : α, ¬ a ≤ b → b ≤ a) (hrefl : ∀ a : α, a ≤ a)", state_hyps_from0="htot hrefl",
+      mstate="A.σ × VstState α",
+      abs="(s.view, { last := s.last, wo := { q := s.welford_online.q_vals, mean := s.welford_online.mean, m2 := s.welford_online.m2, count := s.welford_online.count } })"),
+ dict(view="RoofingFilter", src="src/sliding_windows/roofing_filter.rs", imports=["SF.Model.Ehlers"], params="(N : Nat) (Mss : Nat)",
+      cfg=[("window_len", "N"), ("super_smoother.window_len", "Mss")],
+      derived=[("alpha_1", "roofAlpha {N}"), ("super_smoother.c1", "(ssCoef {Mss}).c1"), ("super_smoother.c2", "(ssCoef {Mss}).c2"), ("super_smoother.c3", "(ssCoef {Mss}).c3")],
+      ctor_hyps="(hN : 2 ≤ N)", new_proof="simp [new, SF.Gen.SuperSmoother.new, s0, hN, bind, Except.bind, pure, Except.pure, echoV, roofAlpha, ssCoef, piC, piLit]",
+      s0="{ view := A.init, super_smoother := { view := none, window_len := Mss, i := 0, c1 := (ssCoef Mss).c1, c2 := (ssCoef Mss).c2, c3 := (ssCoef Mss).c3, filt := nat 0, filt_1 := nat 0, filt_2 := nat 0, last_val := nat 0 }, window_len := N, i := 0, alpha_1 := roofAlpha N, val_1 := nat 0, val_2 := nat 0, hp_1 := nat 0, hp_2 := nat 0 }",
+      model="wrap A (roofCoreU {N} {Mss})", unfold="roofCoreU, ssStep, ssOut, ssInit, SF.Gen.SuperSmoother.update, SF.Gen.SuperSmoother.last, echoV", heartbeats=4000000,
+      mstate="A.σ × RoofState α",
+      abs="(s.view, { ss := { i := s.super_smoother.i, filt := s.super_smoother.filt, filt1 := s.super_smoother.filt_1, filt2 := s.super_smoother.filt_2, lastVal := s.super_smoother.last_val }, i := s.i, val1 := s.val_1, val2 := s.val_2, hp1 := s.hp_1, hp2 := s.hp_2 })"),
 ] + [
  dict(view=v, src="src/pure_functions/%s.rs" % v.lower(), children=["A", "B"], imports=["SF.Model.Pure"],
       s0="{ a := A.init, b := B.init }", model="binop %s A B" % f, unfold=f, mstate="A.σ × B.σ", abs="(s.a, s.b)")
